@@ -142,7 +142,7 @@ func (commander *Commander) exec(ctx context.Context, parameters Parameters, scr
 			WithPostings(result.Postings...).
 			WithMetadata(result.Metadata).
 			WithDate(script.Timestamp).
-			WithID(commander.nextTXID()).
+			WithID(commander.nextTXID(parameters.DryRun)).
 			WithReference(script.Reference)
 
 		log := logComputer(tx, result.AccountMetadata)
@@ -160,7 +160,9 @@ func (commander *Commander) CreateTransaction(ctx context.Context, parameters Pa
 		return nil, err
 	}
 
-	commander.monitor.CommittedTransactions(ctx, *log.Data.(ledger.NewTransactionLogPayload).Transaction, log.Data.(ledger.NewTransactionLogPayload).AccountMetadata)
+	if !parameters.DryRun {
+		commander.monitor.CommittedTransactions(ctx, *log.Data.(ledger.NewTransactionLogPayload).Transaction, log.Data.(ledger.NewTransactionLogPayload).AccountMetadata)
+	}
 
 	return log.Data.(ledger.NewTransactionLogPayload).Transaction, nil
 }
@@ -201,7 +203,9 @@ func (commander *Commander) SaveMeta(ctx context.Context, parameters Parameters,
 		return err
 	}
 
-	commander.monitor.SavedMetadata(ctx, targetType, fmt.Sprint(targetID), m)
+	if !parameters.DryRun {
+		commander.monitor.SavedMetadata(ctx, targetType, fmt.Sprint(targetID), m)
+	}
 	return nil
 }
 
@@ -238,7 +242,9 @@ func (commander *Commander) RevertTransaction(ctx context.Context, parameters Pa
 		return nil, err
 	}
 
-	commander.monitor.RevertedTransaction(ctx, log.Data.(ledger.RevertedTransactionLogPayload).RevertTransaction, transactionToRevert)
+	if !parameters.DryRun {
+		commander.monitor.RevertedTransaction(ctx, log.Data.(ledger.RevertedTransactionLogPayload).RevertTransaction, transactionToRevert)
+	}
 
 	return log.Data.(ledger.RevertedTransactionLogPayload).RevertTransaction, nil
 }
@@ -256,12 +262,15 @@ func (commander *Commander) chainLog(log *ledger.Log) *ledger.ChainedLog {
 	return commander.lastLog
 }
 
-func (commander *Commander) nextTXID() *big.Int {
+// nextTXID returns the id the next transaction gets; a preview only looks at it, it does not consume it.
+func (commander *Commander) nextTXID(peek bool) *big.Int {
 	commander.mu.Lock()
 	defer commander.mu.Unlock()
 
 	ret := big.NewInt(0).Add(commander.lastTXID, big.NewInt(1))
-	commander.lastTXID = ret
+	if !peek {
+		commander.lastTXID = ret
+	}
 
 	return ret
 }
@@ -300,7 +309,9 @@ func (commander *Commander) DeleteMetadata(ctx context.Context, parameters Param
 		return err
 	}
 
-	commander.monitor.DeletedMetadata(ctx, targetType, targetID, key)
+	if !parameters.DryRun {
+		commander.monitor.DeletedMetadata(ctx, targetType, targetID, key)
+	}
 
 	return nil
 }
